@@ -474,6 +474,11 @@ def check_symbol_names(res, B, elems, xs, case, sub, ops_wanted, tol=1e-11):
                     break
 
 
+# looking at an element must not change it: printing, formatting, comparing, copying, reading its parameters, listing its attributes
+OBSERVERS = {"repr": lambda o: repr(o), "str": lambda o: str(o), "format": lambda o: "%s %r" % (o, o), "eq_self": lambda o: o == o, "copy": lambda o: __import__("copy").deepcopy(o),
+             "read_param": lambda o: np.array(ca.DM(o.param)), "vars": lambda o: (dir(o), vars(o)), "bool_len": lambda o: (o.param.shape, o.param.is_dense())}
+
+
 def check_history(res, B, elems, xs, case, sub, targets, preludes, tol=1e-11):
     """N6: the result of an operation on an element object does not depend on which other operations were called on that object before
     (lazily cached or silently rewritten per-object state).  For every element, every target op and every prelude op (same argument
@@ -491,10 +496,13 @@ def check_history(res, B, elems, xs, case, sub, targets, preludes, tol=1e-11):
         pool = elems if kind == "g" else xs
         for p in pool:
             want = None
-            for pre in preludes:
-                if pre == t or pre not in ops:
+            for pre in list(preludes) + list(OBSERVERS):
+                if pre in OBSERVERS:
+                    kp, fp = (kind,), OBSERVERS[pre]
+                elif pre == t or pre not in ops:
                     continue
-                kp, fp = ops[pre]
+                else:
+                    kp, fp = ops[pre]
                 if kp[0] != kind:
                     continue
                 res.count("evaluations")
